@@ -97,4 +97,4 @@ class TransitionFunction:
 
     def to_dict(self):
         """Get the dictionary representation of the transitions"""
-        return self._transitions
+        return {key: set(value) for key, value in self._transitions.items()}
